@@ -189,8 +189,16 @@ def _metamorphic_case(rng, grid, data, shape, dx, x0, dim):
                 ks4 = np.meshgrid(*[2 * np.pi * np.fft.fftfreq(shape[a], dx[rot[a]]) for a in range(dim)], indexing="ij")
                 if np.max(np.abs(k4 - np.sqrt(sum(x**2 for x in ks4)).ravel()[1:])) > 1e-12 * k4.max():
                     fails.append("wave numbers of a grid with the same shape and permuted spacings are not its Fourier wave numbers")
+            # a field that is nowhere positive and touches zero (a mask times -1): same spectrum as the mask itself
+            msk = (data > np.median(data)).astype(float)
+            if msk.any() and not msk.all():
+                sp = get_structure_factor(ScalarField(grid, msk), smoothing=None)
+                sn = get_structure_factor(ScalarField(grid, -3.0 * msk), smoothing=None)
+                if not np.all(np.isfinite(sn[1])) or not _same_spectrum(sn, sp):
+                    fails.append("not invariant under multiplication by a negative constant (field <= 0 touching zero)")
             # ---- smoothed variant
             wn = np.sort(rng.uniform(k.min(), k.max(), 7))
+            wn[-1] = 1.5 * k.max()          # a request beyond the largest wave number of the grid is still returned as asked
             sm = float(0.3 * k.max())
             kk, ss = get_structure_factor(ScalarField(grid, data), smoothing=sm, wave_numbers=wn)
             if not np.array_equal(kk, wn):
